@@ -362,13 +362,105 @@ def check_caller(case):
     return {'nt': any(wrote), 'cls': ['ctor:' + name, 'input-frozen-in-place' if not all(wrote) else 'input-still-writeable']}
 
 
+# ---------------------------------------------------------------------------------------------
+# caller-held grow-only containers handed to static constructors
+
+def _go_routes():
+    R = []
+
+    def add(name, build, grow):
+        R.append((name, build, grow))
+
+    def ixgo(labels):
+        return sf.IndexGO(labels)
+
+    add('Index(IndexGO)', lambda src: sf.Index(src['ix']), 'ix')
+    add('Series(index=IndexGO)', lambda src: sf.Series(np.arange(len(src['ix'])), index=src['ix']), 'ix')
+    add('Frame(index=IndexGO, columns=IndexGO)', lambda src: sf.Frame(np.zeros((len(src['ix']), len(src['ix2']))), index=src['ix'], columns=src['ix2']), 'both')
+    add('IndexHierarchy.from_index_items', lambda src: sf.IndexHierarchy.from_index_items([('p', src['ix']), ('q', src['ix2'])]), 'both')
+    add('IndexHierarchy.from_product(IndexGO,..)', lambda src: sf.IndexHierarchy.from_product(src['ix'], src['ix2']), 'both')
+    add('IndexHierarchy(IndexHierarchyGO)', lambda src: sf.IndexHierarchy(src['ihgo']), 'ihgo')
+    add('Series(index=IndexHierarchyGO)', lambda src: sf.Series(np.arange(len(src['ihgo'])), index=src['ihgo']), 'ihgo')
+    add('series.relabel(IndexGO)', lambda src: sf.Series(np.arange(len(src['ix']))).relabel(src['ix']), 'ix')
+    add('series.reindex(IndexGO)', lambda src: sf.Series(np.arange(len(src['ix'])), index=list(src['ix'])).reindex(src['ix']), 'ix')
+    add('frame.relabel(columns=IndexGO)', lambda src: sf.Frame(np.zeros((2, len(src['ix'])))).relabel(columns=src['ix']), 'ix')
+    add('Frame(FrameGO)', lambda src: sf.Frame(src['fgo']), 'fgo')
+    add('FrameGO.to_frame()', lambda src: src['fgo'].to_frame(), 'fgo')
+    add('FrameGO.to_frame_he()', lambda src: src['fgo'].to_frame_he(), 'fgo')
+    add('FrameGO.iloc[:, :]->static?', lambda src: src['fgo'].to_frame().iloc[:, :], 'fgo')
+    add('Frame.from_concat((FrameGO, FrameGO2), axis=0)', lambda src: sf.Frame.from_concat((src['fgo'], src['fgo2']), axis=0, index=sf.IndexAutoFactory), 'fgos')
+    add('Frame.from_concat(axis=1)', lambda src: sf.Frame.from_concat((src['fgo'], src['fgo2'].relabel(columns=lambda c: 'z' + str(c))), axis=1), 'fgos')
+    add('Frame.from_concat_items(axis=1)', lambda src: sf.Frame.from_concat_items([('a', src['fgo']), ('b', src['fgo2'])], axis=1), 'fgos')
+    add('Frame.from_concat_items(axis=0)', lambda src: sf.Frame.from_concat_items([('a', src['fgo']), ('b', src['fgo2'])], axis=0), 'fgos')
+    add('FrameGO.columns static copy', lambda src: sf.Index(src['fgo'].columns), 'fgo')
+    add('FrameGO[col] Series', lambda src: src['fgo'][src['fgo'].columns.iloc[0]], 'fgo')
+    add('FrameGO.iter_series first', lambda src: next(iter(src['fgo'].iter_series(axis=1))), 'fgo')
+    add('Bus.from_frames((FrameGO,))', lambda src: sf.Bus.from_frames((src['fgo'].rename('g'),))['g'], 'fgo')
+    add('FrameGO.set_index().to_frame()', lambda src: src['fgo'].set_index(src['fgo'].columns.iloc[0]).to_frame(), 'fgo')
+    add('FrameGO.T.T (transpose twice)', lambda src: src['fgo'].transpose().transpose().to_frame(), 'fgo')
+    return R
+
+
+GO_ROUTES = _go_routes()
+
+
+@st.composite
+def go_cases(draw):
+    n = draw(st.integers(1, 4))
+    kind = draw(st.sampled_from(['str', 'int']))
+    labels = draw(gen.flat_labels(n, kind))
+    labels2 = draw(gen.flat_labels(draw(st.integers(1, 3)), 'str'))
+    return {'route': draw(st.integers(0, len(GO_ROUTES) - 1)), 'labels': labels, 'labels2': ['y' + l for l in labels2], 'reads': draw(st.booleans()),
+            'grows': draw(st.integers(1, 3))}
+
+
+def check_go(case):
+    name, build, which = GO_ROUTES[case['route']]
+    labels, labels2 = case['labels'], case['labels2']
+    n = len(labels)
+    src = {
+        'ix': sf.IndexGO(labels),
+        'ix2': sf.IndexGO(labels2),
+        'ihgo': sf.IndexHierarchyGO.from_product(labels, ('u', 'v')),
+        'fgo': sf.FrameGO(np.arange(2 * n).reshape(2, n), columns=labels),
+        'fgo2': sf.FrameGO(np.arange(2 * n).reshape(2, n) + 100, columns=labels),
+    }
+    if case['reads']:
+        for v in src.values():
+            v.values  # materialise caches before the derivation
+    c = lib(build, src)
+    if isinstance(c, Raised):
+        raise Discard('constructor rejected input: %s' % name)
+    if not getattr(c, 'STATIC', True):
+        raise Discard('result is grow-only')
+    s0 = obs.snap(c)
+    assert_frozen(c, name)
+    # the caller grows everything it handed over
+    for g in range(case['grows']):
+        new = ('new%d' % g) if isinstance(labels[0], str) else 9000 + g
+        src['ix'].append(new)
+        src['ix2'].append('ynew%d' % g)
+        src['ihgo'].append((labels[-1], 'w%d' % g))
+        src['fgo'][new] = np.array([7, 8])
+        src['fgo2'][new] = np.array([7, 8])
+    s1 = lib(obs.snap, c)
+    if isinstance(s1, Raised):
+        raise Failure('caller-growth-visible', '%s: after the source grew, the static container is unreadable: %r' % (name, s1.exc), s1.where)
+    if s1 != s0:
+        raise Failure('caller-growth-visible', '%s: growing the grow-only source changed the static container: %s -> %s' % (name, short(s0, 300), short(s1, 300)))
+    it = lib(lambda: (len(list(c)) if not isinstance(c, sf.Frame) else len(list(c.columns)), len(c) if not isinstance(c, sf.Frame) else c.shape[1]))
+    if isinstance(it, Raised) or it[0] != it[1]:
+        raise Failure('caller-growth-visible', '%s: iteration and length disagree after the source grew: %r' % (name, it))
+    return {'nt': True, 'cls': ['go-route:' + name]}
+
+
 def tag(case, f):
     return None
 
 
 def extra_evidence(tier):
     return {'interface_table': {'frame_ops': len(ops.FRAME_OPS), 'series_ops': len(ops.SERIES_OPS), 'index_ops': len(ops.INDEX_OPS),
-                                'caller_array_routes': len(CTORS)}}
+                                'caller_array_routes': len(CTORS), 'caller_grow_only_routes': len(GO_ROUTES)}}
 
 
 SUBS = [
@@ -376,4 +468,6 @@ SUBS = [
         rule='snapshots unchanged after every call; every reachable result array read-only'),
     Sub('caller', caller_cases(), check_caller, quick=1500, thorough=24000,
         rule='constructors/assigners fed writeable arrays later overwritten by the caller'),
+    Sub('caller_go', go_cases(), check_go, quick=600, thorough=12000,
+        rule='static containers built from caller-held grow-only containers (IndexGO, IndexHierarchyGO, FrameGO) that the caller grows afterwards'),
 ]
